@@ -130,6 +130,12 @@ MUTATIONS = [
     ("tlexport/main.py", '        if session.matches_session_dgram(packet.ip_src, packet.ip_dst, packet.sport, packet.dport):\n            session.handle_packet(packet, dcid, quic_version)\n            return\n', '        if session.matches_session_dgram(packet.ip_src, packet.ip_dst, packet.sport, packet.dport):\n            session.handle_packet(packet, dcid, quic_version)\n            continue\n', 'main.quic_loop: 4-tuple match goes on to the next session'),
     ("tlexport/main.py", '        quic_sessions.append(new_session)\n        new_session.handle_packet(packet, dcid, quic_version)', '        quic_sessions.append(new_session)', 'main.quic_loop: first packet of a new session not processed'),
     ("tlexport/main.py", '                    candidates = session.server_cids\n                else:\n                    candidates = session.client_cids', '                    candidates = session.client_cids\n                else:\n                    candidates = session.server_cids', 'main.quic_loop: sender-side CIDs as candidates (fragment)'),
+    # group Keylog: keylog_reader.py
+    ("tlexport/keylog_reader.py", '        self.client_random = split[1]\n        self.value = split[2]', '        self.client_random = split[2]\n        self.value = split[1]', 'Key: client random and value swapped'),
+    ("tlexport/keylog_reader.py", '        split = key_line.split(" ")', '        split = key_line.split("\\t")', 'Key: line split at tabs'),
+    ("tlexport/keylog_reader.py", '    key_str = key_str.replace("\\r", "")\n', '', 'get_keys_from_string: carriage returns kept'),
+    ("tlexport/keylog_reader.py", '        if key is not None:\n            keys.append(key)', '        if key is not None:\n            keys.insert(0, key)', 'get_keys_from_string: keys in reverse order'),
+    ("tlexport/keylog_reader.py", '    if res is not None:\n        return Key(line)', '    if res is None:\n        return Key(line)', 'get_key_from_line: the lines that do NOT match'),
     # group QuicTls: quic_tls_parser.py
     ("tlexport/quic/quic_tls_parser.py", "            if p_type == 0x2ab2:", "            if p_type == 0x2ab3:", "get_quic_transport_parameters: grease_quic_bit under the wrong id"),
     ("tlexport/quic/quic_tls_parser.py", "            extension_body = extension_body[index + parameter_length:]", "            extension_body = extension_body[index + parameter_length + 1:]", "get_quic_transport_parameters: a byte skipped after each parameter"),
@@ -227,6 +233,7 @@ MUTATIONS = [
 
 # behaviour-preserving rewrites: (file, [(old, new)…], what)
 REWRITES = [
+    ("tlexport/keylog_reader.py", [('    for line in lines:\n        key = get_key_from_line(line)\n        if key is not None:\n            keys.append(key)', '    for line in lines:\n        key = get_key_from_line(line)\n        if key is None:\n            continue\n        keys.append(key)')], 'get_keys_from_string: `continue` on a line that is no key'),
     ("tlexport/main.py", [('    if packet.dport in server_ports or packet.sport in server_ports:\n        sessions.append(', '    if packet.sport in server_ports or packet.dport in server_ports:\n        sessions.append(')], 'main.handle_packet: port tests swapped'),
     ("tlexport/quic/quic_session.py", [('                if isserver:\n                    self.server_cids.add(frame.connection_id)\n                else:\n                    self.client_cids.add(frame.connection_id)', '                if not isserver:\n                    self.client_cids.add(frame.connection_id)\n                else:\n                    self.server_cids.add(frame.connection_id)')], 'handle_frame: NEW_CONNECTION_ID branches swapped under `not`'),
     ("tlexport/quic/quic_session.py", [('                    case QuicPacketType.HANDSHAKE | QuicPacketType.RTT_O:', '                    case QuicPacketType.RTT_O | QuicPacketType.HANDSHAKE:')], 'decrypt_packet: `HANDSHAKE | RTT_O` written `RTT_O | HANDSHAKE`'),
@@ -299,6 +306,8 @@ def group_of(what):
     if fn in ("Dec.byte_xor", "get_cipher_type", "update_keys", "decrypt_tls13_aead", "decrypt_tls13_stream_cipher", "decrypt_tls12_aead",
               "decrypt_tls12_chacha20", "Decryptor.decrypt"):
         return ["Decrypt"]
+    if fn in ("Key", "get_key_from_line", "get_keys_from_string"):
+        return ["Keylog"]
     if fn.startswith("main."):
         return ["Demux", "Main2"] if "(fragment)" in what else ["Main2"]
     if fn in ("decrypt_packet", "handle_frame", "QuicSession.handle_quic_packet", "handle_crypto_frame", "QuicSession.handle_packet"):
